@@ -122,19 +122,7 @@ theorem time_cov_columns (d : Nat) :
 
 /-! ### symmetry, for every expression tree -/
 
-theorem k_symm (c : Cov ℝ) (x y : List ℝ) : c.k x y = c.k y x := by
-  induction c generalizing x y with
-  | matern32 ls ad => simp only [Cov.k, distance_symm]
-  | matern52 ls ad => simp only [Cov.k, distance_symm]
-  | expquad ls ad => simp only [Cov.k, distance_symm]
-  | exponential ls ad => simp only [Cov.k, distance_symm]
-  | ratquad a ls ad => simp only [Cov.k, distance_symm]
-  | linear ls ad => simp only [Cov.k, dot_comm]
-  | add l r ad ihl ihr => simp only [Cov.k]; rw [ihl, ihr]
-  | addC l c ad ih => simp only [Cov.k]; rw [ih]
-  | mul l r ad ihl ihr => simp only [Cov.k]; rw [ihl, ihr]
-  | mulC l c ad ih => simp only [Cov.k]; rw [ih]
-  | pow l p ad ih => simp only [Cov.k]; rw [ih]
+theorem k_symm (c : Cov ℝ) (x y : List ℝ) : c.k x y = c.k y x := cov_k_symm c x y
 
 /-! ### stationary kernels: values in (0, 1], unit self-covariance up to the regulariser -/
 
